@@ -12,7 +12,7 @@
    operators ([table_ok]; any number of levels, any prefix operators, the empty table included), every
    identifier chain, every expression, every fuel - no bound on depth or length. *)
 From P2 Require Import Base.Prelude Lex.Token Syn.Ast Syn.Parse Syn.Render Syn.ParseRel Syn.ParseProofs
-  Syn.ParseSound Syn.ParseTotal Syn.ParseCor Syn.Full Syn.FullProofs Syn.FullSound Syn.TextToAst Syn.RenderText Syn.TableBuild Syn.TableBuildProofs.
+  Syn.ParseSound Syn.ParseTotal Syn.ParseCor Syn.Full Syn.FullProofs Syn.FullSound Syn.TextToAst Syn.RenderText Syn.RenderComfort Syn.TableBuild Syn.TableBuildProofs.
 From P2 Require Lex.Tok Lex.TokProofs.
 
 (* completeness: every well-formed rendering is parsed, as a whole, to exactly the tree it denotes
@@ -122,6 +122,46 @@ Theorem C03_render_roundtrip : forall (tc : P2.Lex.Tok.tcfg) (pc : pcfg) (ids : 
   spellable tc pc r = true -> fwf pc r = true -> ferase pc ids r = Some (e, u) ->
   parse_tokens pc ids (P2.Lex.Tok.tokenize tc (render_text pc r)) = POk e.
 Proof. exact render_roundtrip. Qed.
+
+(* COMFORT MODE (Syn/RenderComfort.v): the same tree written with multiplication signs LEFT OUT and lexemes set tight.
+   A directive per token of the canonical stream says "write nothing" (only for the operator token  * ) and which
+   separator run follows the lexeme - any list of blanks, tabs, CR, LF, line and block comments, or nothing;
+   [render_comfort pc r ds] is that text ([] = the canonical text above).  [cspellable] is a
+   BOOLEAN that walks the tokens with the bookkeeping of token.go run() - lastTokenType is tNumber / tIdent / tClose
+   behind a number, a (quoted) identifier, ')' when comfort mode is on and tInvalid otherwise, blanks keep it and set
+   lastWasBlank; the scanner sends  *  in front of a number / identifier / quoted identifier when lastTokenType is one
+   of the three, in front of '(' when it is tNumber or tClose or (tIdent and a blank was seen) - and demands: a sign is
+   left out only where the scanner puts it back ( 2a , 2 a , a b , 2(a) , a (b) , (a)(b) , (a)b , 2'x y' ); where the
+   scanner would put one that the tokens do not have, the lexemes are written so that it does not ( f(x)  tight; the
+   call of a parenthesised or numeric callee is not spellable in comfort mode at all: it reads as a product); a lexeme
+   with nothing behind it ends where its scanner stops ( 2e  is one number:  2 e  needs its blank); separators are well
+   formed and form no comment opener with an operator in front of them.  Separators keep lastTokenType and set
+   lastWasBlank:  a /* c */ (b)  is the product like  a (b) .
+   For EVERY tokenizer configuration (comfort on or off), operator table, tree and admissible directive list the text
+   tokenizes to the canonical tokens - every omitted sign back in place, none added - and parses to the AST the tree
+   denotes: the same AST as the explicit text, whatever was left out. *)
+Theorem C03_render_comfort_tokenize : forall (tc : P2.Lex.Tok.tcfg) (ts : list tk) ds, cspellable_toks tc ts ds = true ->
+  map untok (P2.Lex.Tok.tokenize tc (crender_toks ts ds)) = ts.
+Proof. exact comfort_tokenize. Qed.
+
+Theorem C03_render_comfort_roundtrip : forall (tc : P2.Lex.Tok.tcfg) (pc : pcfg) (ids : idents) r ds e u,
+  cspellable tc pc r ds = true -> fwf pc r = true -> ferase pc ids r = Some (e, u) ->
+  parse_tokens pc ids (P2.Lex.Tok.tokenize tc (render_comfort pc r ds)) = POk e.
+Proof. exact render_comfort_roundtrip. Qed.
+
+(* ... the same AST as the explicit canonical text read by a tokenizer tc' without comfort mode *)
+Theorem C03_comfort_equals_explicit : forall (tc tc' : P2.Lex.Tok.tcfg) (pc : pcfg) (ids : idents) r ds e u,
+  cspellable tc pc r ds = true -> spellable tc' pc r = true -> fwf pc r = true -> ferase pc ids r = Some (e, u) ->
+  parse_tokens pc ids (P2.Lex.Tok.tokenize tc (render_comfort pc r ds)) = POk e /\
+  parse_tokens pc ids (P2.Lex.Tok.tokenize tc' (render_text pc r)) = POk e.
+Proof. exact comfort_equals_explicit. Qed.
+
+(* ... and any two admissible choices of omissions and blanks give the same parse result (AST or error), tree or not *)
+Theorem C03_comfort_choice_irrelevant : forall (tc : P2.Lex.Tok.tcfg) (pc : pcfg) (ids : idents) ts ds ds',
+  cspellable_toks tc ts ds = true -> cspellable_toks tc ts ds' = true ->
+  parse_tokens pc ids (P2.Lex.Tok.tokenize tc (crender_toks ts ds))
+  = parse_tokens pc ids (P2.Lex.Tok.tokenize tc (crender_toks ts ds')).
+Proof. exact comfort_choice_irrelevant. Qed.
 
 (* tables built through the generator API (Syn/TableBuild.v: AddOp* append, AddOpBehind(behind, new) = insert_behind):
    after the insertion the new operator binds exactly one level tighter than its anchor (so looser than the anchor's old
@@ -289,6 +329,55 @@ Example C03_render_rejects_keyword_identifier :
   spellable rd_tc ex_cfg (FLet [105; 103]%N (FNum [50%N]) rd_a) = true.
 Proof. vm_compute. repeat split; reflexivity. Qed.
 
+(* comfort mode, non-vacuity: table  +  -  *  (ascending), prefix  - ; tokenizer with comfort mode and comments.
+     2a+(a+1)(1-a)-c(2 b)          (and   a/* c */ LF TAB (b)   for  a*(b) , last lines of the example)
+   is the comfort text of  2*a + ((a+1)*(1-a) - c(2*b))  with three signs left out and every lexeme tight but the
+   number in  2 b ; it is admissible and reads back to the AST of the tree.  The call  c(a)  must be written tight:
+   its canonical text  c ( a )  is NOT admissible in comfort mode - and indeed reads as the product  c*(a) ; a call
+   of a parenthesised callee has no admissible text; nor has  2e  for  2*e  (one number), while  2 e  has. *)
+Definition cm_pc : pcfg := mkPcfg [[43]; [45]; [42]]%N [[45]]%N (Some (fun s => Some s)) (Some (fun s => s)).
+Definition cm_tc : P2.Lex.Tok.tcfg :=
+  P2.Lex.Tok.mkCfg [[43]; [45]; [42]; [61]; [45; 62]]%N [] [P2.Syn.Parse.s_let; s_if; s_then; s_else] true true P2.Lex.Tok.MSimple
+    (fun c => ((65 <=? c) && (c <=? 90)) || ((97 <=? c) && (c <=? 122)))%N (fun c => (48 <=? c) && (c <=? 57))%N.
+Definition cm_t := mkDir false []. Definition cm_o := mkDir true []. Definition cm_b := mkDir false [P2.Lex.Tok.SBlank].
+Definition cm_c := mkDir false [P2.Lex.Tok.SBlockC [32; 99; 32]%N; P2.Lex.Tok.SLF; P2.Lex.Tok.STab].
+Definition cm_prog : ft :=
+  FBin 0 (FBin 2 (FNum [50%N]) rd_a)
+    (FBin 1 (FBin 2 (FParen (FBin 0 rd_a (FNum [49%N]))) (FParen (FBin 1 (FNum [49%N]) rd_a)))
+            (FCall (FIdent [99%N]) (FA_last (FBin 2 (FNum [50%N]) rd_b)))).
+Definition cm_ds : list cdir :=
+  [cm_t; cm_o; cm_t; cm_t; cm_t; cm_t; cm_t; cm_t; cm_t; cm_o; cm_t; cm_t; cm_t; cm_t; cm_t; cm_t; cm_t; cm_t; cm_b; cm_o; cm_t; cm_t].
+Definition cm_text : list N := [50; 97; 43; 40; 97; 43; 49; 41; 40; 49; 45; 97; 41; 45; 99; 40; 50; 32; 98; 41]%N.
+Example C03_comfort_nonvacuous :
+  cspellable cm_tc cm_pc cm_prog cm_ds = true /\ fwf cm_pc cm_prog = true /\ render_comfort cm_pc cm_prog cm_ds = cm_text /\
+  (exists e u, ferase cm_pc ex_ids cm_prog = Some (e, u) /\
+     parse_tokens cm_pc ex_ids (P2.Lex.Tok.tokenize cm_tc cm_text) = POk e) /\
+  cspellable cm_tc cm_pc cm_prog (omit_all cm_tc tInvalid (fflatten cm_pc cm_prog)) = false /\
+  cspellable cm_tc cm_pc (FBin 2 rd_a (FParen rd_b)) (omit_all cm_tc tInvalid (fflatten cm_pc (FBin 2 rd_a (FParen rd_b)))) = true /\
+  render_comfort cm_pc (FBin 2 rd_a (FParen rd_b)) (omit_all cm_tc tInvalid (fflatten cm_pc (FBin 2 rd_a (FParen rd_b)))) = [97; 32; 40; 32; 98; 32; 41; 32]%N /\
+  cspellable cm_tc cm_pc (FBin 2 rd_a (FParen rd_b)) [cm_c; cm_o; cm_t; cm_t; cm_t] = true /\
+  render_comfort cm_pc (FBin 2 rd_a (FParen rd_b)) [cm_c; cm_o; cm_t; cm_t; cm_t] = [97; 47; 42; 32; 99; 32; 42; 47; 10; 9; 40; 98; 41]%N /\
+  parse_tokens cm_pc ex_ids (P2.Lex.Tok.tokenize cm_tc [97; 47; 42; 32; 99; 32; 42; 47; 10; 9; 40; 98; 41]%N)
+    = POk (AOp [42%N] 2 (AIdent [97%N] false) (AIdent [98%N] false)).
+Proof.
+  split; [vm_compute; reflexivity|]. split; [vm_compute; reflexivity|]. split; [vm_compute; reflexivity|].
+  split; [eexists; eexists; split; vm_compute; reflexivity|]. vm_compute. repeat split; reflexivity.
+Qed.
+
+Definition cm_call : ft := FCall (FIdent [99%N]) (FA_last rd_a).
+Example C03_comfort_rejects :
+  cspellable cm_tc cm_pc cm_call [] = false /\ cspellable cm_tc cm_pc cm_call [cm_t] = true /\
+  parse_tokens cm_pc ex_ids (P2.Lex.Tok.tokenize cm_tc (render_comfort cm_pc cm_call []))
+    = POk (AOp [42%N] 2 (AIdent [99%N] false) (AIdent [97%N] false)) /\
+  parse_tokens cm_pc ex_ids (P2.Lex.Tok.tokenize cm_tc (render_comfort cm_pc cm_call [cm_t]))
+    = POk (ACall (AIdent [99%N] false) [AIdent [97%N] false]) /\
+  cspellable cm_tc cm_pc (FCall (FParen (FIdent [99%N])) (FA_last rd_a)) [] = false /\
+  cspellable cm_tc cm_pc (FCall (FParen (FIdent [99%N])) (FA_last rd_a)) [cm_t; cm_t; cm_t; cm_t; cm_t; cm_t] = false /\
+  cspellable cm_tc cm_pc (FBin 2 (FNum [50%N]) (FIdent [101%N])) [cm_t; cm_o; cm_t] = false /\
+  cspellable cm_tc cm_pc (FBin 2 (FNum [50%N]) (FIdent [101%N])) [cm_b; cm_o; cm_t] = true /\
+  cspellable cm_tc cm_pc (FBin 0 rd_a rd_b) [cm_t; cm_o; cm_t] = false.
+Proof. vm_compute. repeat split; reflexivity. Qed.
+
 Print Assumptions C03_parse_complete.
 Print Assumptions C03_parse_sound.
 Print Assumptions C03_renders_unique.
@@ -304,6 +393,10 @@ Print Assumptions C03_text_to_ast.
 Print Assumptions C03_text_layout_irrelevant.
 Print Assumptions C03_render_tokenize.
 Print Assumptions C03_render_roundtrip.
+Print Assumptions C03_render_comfort_tokenize.
+Print Assumptions C03_render_comfort_roundtrip.
+Print Assumptions C03_comfort_equals_explicit.
+Print Assumptions C03_comfort_choice_irrelevant.
 Print Assumptions C03_insert_behind_priority.
 Print Assumptions C03_parse_no_panic.
 Print Assumptions C03_parse_total.
